@@ -208,6 +208,282 @@ def _run(env, fam, which, ctx, roles, times, order, args):
     return finish(True, True)
 
 
+# ----------------------------------------------------------------------------------
+# token programs on ONE file reached through two collection instances (+ a bystander
+# file): any order of buffered reads/writes and an outside write, file existing or
+# missing when it enters the buffer
+# ----------------------------------------------------------------------------------
+PTOK = ["A.read", "A.write", "B.read", "B.write", "outside"]
+PCTX = ["backend", "objects-A-only", "backend-capacity"]
+PINIT = ["existing", "missing"]
+
+
+def prog_len():
+    return 4 if hlib.TIER == "thorough" else 3
+
+
+def prog(ci: int, ii: int, t1: int, t2: int, t3: int, t4: int) -> bool:
+    """
+    post: _
+    """
+    env = get_env().reset()
+    P = parts()
+    fam, which = P[hlib.PART % len(P)]
+    ctx = pick(PCTX, ci)
+    init = pick(PINIT, ii)
+    toks = [pick(PTOK, t) for t in (t1, t2, t3, t4)[:prog_len()]]
+    if ctx is None or init is None or None in toks:
+        return finish(False, True)
+    if ctx == "objects-A-only" and any(t.startswith("B.") for t in toks):
+        return finish(False, True)
+    return ops.native(_run_prog, env, fam, which, ctx, init, toks)
+
+
+def _run_prog(env, fam, which, ctx, init, toks):
+    from synced_collections.errors import BufferedError, MetadataError
+
+    w = bufprog.BufWorld(env, fam, which)
+    cls = w.cls
+    w.add_file("f", _doc(which, 0) if init == "existing" else MISSING)
+    w.add_file("g", _doc(which, 1))
+    A = w.add_obj("A", "f")
+    B = w.add_obj("B", "f")
+    G = w.add_obj("G", "g")
+    cap0 = cls.get_buffer_capacity()
+    label = f"{cls.__name__} [{ctx}, file {init}] {toks}"
+    disk = copy_tree(w.ref["f"]) if init == "existing" else MISSING
+    buffered = None  # content of the buffered copy once the file has entered the buffer
+    entered = False
+    modified = False
+    changed_outside_after_entry = False
+    n_out = 0
+    counter = 0
+    err = None
+    try:
+        if ctx == "backend":
+            w.enter_backend()
+        elif ctx == "backend-capacity":
+            w.enter_backend(cap0 * 2 + 7)
+        else:
+            w.enter_obj("A")
+        if which == "dict":
+            G["q"] = 1
+        else:
+            G.append(1)
+        for t in toks:
+            if t == "outside":
+                n_out += 1
+                new = _outside(which, n_out)
+                env.write_doc("f", new)
+                disk = copy_tree(new)
+                if entered:
+                    changed_outside_after_entry = True
+                continue
+            o = A if t[0] == "A" else B
+            if not entered:
+                entered = True
+                buffered = copy_tree(disk) if disk is not MISSING else ({} if which == "dict" else [])
+            if t.endswith("read"):
+                got = o()
+                if not eq_plain(got, buffered):
+                    return finish(True, fail(lambda: f"{label}: {t} returned {got!r}, the buffered copy holds {buffered!r}"))
+            else:
+                counter += 1
+                if which == "dict":
+                    o["w%d" % counter] = counter
+                    buffered["w%d" % counter] = counter
+                else:
+                    o.append(counter)
+                    buffered.append(counter)
+                modified = True
+        try:
+            w.exit_innermost()
+        except hlib.Crash:
+            raise
+        except Exception as e:
+            err = e
+    except hlib.Crash:
+        raise
+    except Exception as e:
+        return finish(True, fail(lambda: f"{label}: raised {e!r} inside the buffered state"))
+    case(cls.__name__, ctx, init, *toks)
+    conflict = entered and modified and changed_outside_after_entry
+    if conflict:
+        if ctx == "objects-A-only":
+            good = isinstance(err, MetadataError) and env_name(env, err.filename) == "f"
+        else:
+            good = isinstance(err, BufferedError) and sorted(env_name(env, k) for k in err.files) == ["f"] and all(isinstance(v, MetadataError) for v in err.files.values())
+        if not good:
+            return finish(True, fail(lambda: f"{label}: the file changed outside after it entered the buffer and the buffered copy was modified, but leaving the context raised {err!r}; file now holds {env.read_doc('f')!r}, the outside writer left {disk!r}"))
+        want = disk
+    else:
+        if err is not None:
+            return finish(True, fail(lambda: f"{label}: no conflict, but leaving the context raised {err!r}"))
+        want = buffered if (entered and modified) else disk
+    got = env.read_doc("f")
+    if want is MISSING:
+        if not (got is MISSING or got in ({}, [])):
+            return finish(True, fail(lambda: f"{label}: file holds {got!r}, expected it to stay missing/empty"))
+    elif got is MISSING or not same_tree(got, plain(want)):
+        return finish(True, fail(lambda: f"{label}: file holds {got!r}, expected {want!r} ({'outside content must survive' if conflict else 'buffered content must be written' if modified else 'disk content must be untouched'})"))
+    gg = env.read_doc("g")
+    gw = _doc(which, 1)
+    if which == "dict":
+        gw["q"] = 1
+    else:
+        gw.append(1)
+    if gg is MISSING or not same_tree(gg, gw):
+        return finish(True, fail(lambda: f"{label}: bystander file holds {gg!r}, expected {gw!r}"))
+    size, recomputed, entries = w.buffer_state()
+    if size != 0 or entries != 0 or cls.get_buffer_capacity() != cap0:
+        return finish(True, fail(lambda: f"{label}: afterwards buffer size {size}, entries {entries}, capacity {cls.get_buffer_capacity()} (was {cap0})"))
+    for name, o in (("A", A), ("B", B)):
+        try:
+            now = env.read_doc("f")
+            r = o()
+            if now is MISSING:
+                now = {} if which == "dict" else []
+            if not eq_plain(r, now):
+                return finish(True, fail(lambda: f"{label}: afterwards {name} reads {r!r}, disk holds {now!r}"))
+        except hlib.Crash:
+            raise
+        except Exception as e:
+            return finish(True, fail(lambda: f"{label}: {name} unusable afterwards: {e!r}"))
+    return finish(True, True)
+
+
+# ----------------------------------------------------------------------------------
+# capacity-forced flushes: with capacity 0 every buffered write flushes at once, so the
+# conflict is met in the middle of the context instead of at its exit
+# ----------------------------------------------------------------------------------
+def forced(ii: int, t1: int, t2: int, t3: int, t4: int) -> bool:
+    """
+    post: _
+    """
+    env = get_env().reset()
+    P = parts()
+    fam, which = P[hlib.PART % len(P)]
+    init = pick(PINIT, ii)
+    toks = [pick(PTOK, t) for t in (t1, t2, t3, t4)[:prog_len()]]
+    if init is None or None in toks:
+        return finish(False, True)
+    return ops.native(_run_forced, env, fam, which, init, toks)
+
+
+def _run_forced(env, fam, which, init, toks):
+    from synced_collections.errors import BufferedError, MetadataError
+
+    w = bufprog.BufWorld(env, fam, which)
+    cls = w.cls
+    retains = fam.buffered == "memory"  # a forced flush keeps the entry (shared-memory) or drops it (serialized)
+    w.add_file("f", _doc(which, 0) if init == "existing" else MISSING)
+    A = w.add_obj("A", "f")
+    B = w.add_obj("B", "f")
+    cap0 = cls.get_buffer_capacity()
+    label = f"{cls.__name__} [buffer_backend(0), file {init}] {toks}"
+    empty = {} if which == "dict" else []
+    disk = copy_tree(w.ref["f"]) if init == "existing" else MISSING
+    buffered, in_buffer, changed, poisoned = None, False, False, False
+    n_out = counter = 0
+    exit_err = None
+    try:
+        w.enter_backend(0)
+        for t in toks:
+            if t == "outside":
+                n_out += 1
+                disk = _outside(which, n_out)
+                env.write_doc("f", disk)
+                if in_buffer:
+                    changed = True
+                continue
+            o = A if t[0] == "A" else B
+            if not in_buffer:
+                in_buffer, changed = True, False
+                buffered = copy_tree(disk) if disk is not MISSING else copy_tree(empty)
+            if t.endswith("read"):
+                try:
+                    got = o()
+                except hlib.Crash:
+                    raise
+                except Exception as e:
+                    return finish(True, fail(lambda: f"{label}: {t} raised {e!r}"))
+                if not eq_plain(got, buffered):
+                    return finish(True, fail(lambda: f"{label}: {t} returned {got!r}, the buffered copy holds {buffered!r}"))
+                if not retains:
+                    in_buffer = False  # serialized strategy: size counts every buffered byte, so with capacity 0 even a read is flushed out at once
+                continue
+            counter += 1
+            err = None
+            try:
+                if which == "dict":
+                    o["w%d" % counter] = counter
+                else:
+                    o.append(counter)
+            except hlib.Crash:
+                raise
+            except Exception as e:
+                err = e
+            if which == "dict":
+                buffered["w%d" % counter] = counter
+            else:
+                buffered.append(counter)
+            conflict = changed
+            if conflict:
+                good = isinstance(err, BufferedError) and sorted(env_name(env, k) for k in err.files) == ["f"] and all(isinstance(v, MetadataError) for v in err.files.values())
+                if not good:
+                    return finish(True, fail(lambda: f"{label}: the write {t} forces a flush of a file that changed outside after it entered the buffer, but the call {'returned normally' if err is None else 'raised ' + repr(err)}; file now holds {env.read_doc('f')!r}, the outside writer left {disk!r}"))
+                # the refused flush reported the buffered modifications as lost; the entry is
+                # dropped (as after a refused exit flush), so the file re-enters the buffer
+                # from disk at its next access
+                poisoned = True
+                in_buffer, changed = False, False
+            else:
+                if err is not None:
+                    return finish(True, fail(lambda: f"{label}: no conflict at {t}, but the call raised {err!r}"))
+                disk = copy_tree(buffered)
+                if not retains:
+                    in_buffer = False
+                changed = False
+        try:
+            w.exit_innermost()
+        except hlib.Crash:
+            raise
+        except Exception as e:
+            exit_err = e
+    except hlib.Crash:
+        raise
+    except Exception as e:
+        return finish(True, fail(lambda: f"{label}: raised {e!r} inside the buffered state"))
+    case(cls.__name__, "forced", init, *toks)
+    if exit_err is not None:
+        return finish(True, fail(lambda: f"{label}: leaving the context raised {exit_err!r} although every write was flushed (or refused and dropped) when it was made"))
+    got = env.read_doc("f")
+    if disk is MISSING:
+        if not (got is MISSING or got in ({}, [])):
+            return finish(True, fail(lambda: f"{label}: file holds {got!r}, expected it to stay missing/empty"))
+    elif got is MISSING or not same_tree(got, plain(disk)):
+        return finish(True, fail(lambda: f"{label}: file holds {got!r}, expected {disk!r} ({'the outside content must survive the refused flush; ' if poisoned else ''}every accepted forced flush must have written the buffered content)"))
+    size, recomputed, entries = w.buffer_state()
+    if size != 0 or entries != 0 or cls.get_buffer_capacity() != cap0:
+        return finish(True, fail(lambda: f"{label}: after the context exited: buffer size {size}, entries {entries}, capacity {cls.get_buffer_capacity()} (was {cap0})"))
+    now = env.read_doc("f")
+    now = copy_tree(empty) if now is MISSING else now
+    for name, o in (("A", A), ("B", B)):
+        try:
+            r = o()
+            if not eq_plain(r, now):
+                return finish(True, fail(lambda: f"{label}: afterwards {name} reads {r!r}, disk holds {now!r}"))
+            with cls.buffer_backend():
+                r2 = o()
+            if not eq_plain(r2, now):
+                return finish(True, fail(lambda: f"{label}: in a later buffered context {name} reads {r2!r}, disk holds {now!r}"))
+        except hlib.Crash:
+            raise
+        except Exception as e:
+            return finish(True, fail(lambda: f"{label}: {name} unusable afterwards: {e!r}"))
+    return finish(True, True)
+
+
 def env_name(env, path):
     import os
 
@@ -216,8 +492,8 @@ def env_name(env, path):
 
 def plan(tier):
     if tier == "quick":
-        return [{"fn": "sched", "nparts": len(PARTS), "timeout": 300}]
-    return [{"fn": "sched", "nparts": len(PARTS), "timeout": 2400}]
+        return [{"fn": "sched", "nparts": len(PARTS), "timeout": 300}, {"fn": "prog", "nparts": len(PARTS), "timeout": 300}, {"fn": "forced", "nparts": len(PARTS), "timeout": 300}]
+    return [{"fn": "sched", "nparts": len(PARTS), "timeout": 2400}, {"fn": "prog", "nparts": len(PARTS), "timeout": 2400}, {"fn": "forced", "nparts": len(PARTS), "timeout": 2400}]
 
 
 def smoke(tier):
@@ -227,6 +503,12 @@ def smoke(tier):
             for ra in range(3):
                 for ta in range(3):
                     out.append(("sched", (ci, ra, (ra + 1) % 3, 0, ta, (ta + 2) % 3, 0, (ra + ta) % 2), part, len(PARTS)))
+    for part in range(len(PARTS)):
+        for ci in range(3):
+            for ii in range(2):
+                for t1 in range(5):
+                    out.append(("prog", (ci, ii, t1 if ci != 1 else t1 % 2, (t1 + ci) % 2, 4 if ii else 1, 1), part, len(PARTS)))
+                    out.append(("forced", (ii, t1, (t1 + ci + 1) % 5, 4 if ci else 1, 1), part, len(PARTS)))
     return out
 
 
@@ -245,4 +527,4 @@ FUNCTIONS = [
 BOUNDS = {"quick": {"classes": 8, "files": 2, "roles": ROLES, "outside_write_times": TIMES, "orders": "all first-access orders", "contexts": CTXS},
           "thorough": {"classes": 8, "files": 3}}
 ASSUMPTIONS = ["an outside write changes the file's size or mtime_ns (the library's own detection limit; the FS model's clock is strictly increasing and the real-mode writer bumps mtime if needed)", "finite schedule space explored exhaustively through the solver's path tree; decided schedules run natively"]
-OUTSIDE = ["more than 3 files", "several outside writes to one file", "capacity-forced flushes in the middle of the schedule (C15)"]
+OUTSIDE = ["more than 3 files", "more than 3 (4 thorough) tokens per single-file program", "capacity-forced flushes in the middle of the schedule (C15)"]
